@@ -19,6 +19,24 @@ pub struct Case {
     /// component indices used for N-directions (i, j)
     pub ci: usize,
     pub cj: usize,
+    /// 1 / 2: the temperature of the state is exactly the lowest / highest temperature of the first tabulated
+    /// permittivity (ePC-SAFT with ions); the linear interpolation continues smoothly through both end points
+    #[serde(default)]
+    pub snap: u8,
+}
+
+/// (lowest, highest) temperature of the first permittivity table with at least two points
+fn table_end_points(spec: &ModelSpec) -> Option<(f64, f64)> {
+    for p in &spec.pure {
+        if let Some(data) = p["model_record"]["permittivity_record"]["ExperimentalData"]["data"].as_array() {
+            let mut ts: Vec<f64> = data.iter().filter_map(|d| d[0].as_f64()).collect();
+            if ts.len() >= 2 {
+                ts.sort_by(|a, b| a.partial_cmp(b).unwrap());
+                return Some((ts[0], ts[ts.len() - 1]));
+            }
+        }
+    }
+    None
 }
 
 pub fn decode(g: &mut Gen) -> Case {
@@ -27,12 +45,14 @@ pub fn decode(g: &mut Gen) -> Case {
     let ig = (0..spec.n()).map(|_| g.index(POOLS.dippr.len())).collect();
     let ci = g.index(spec.n());
     let cj = g.index(spec.n());
+    let snap = if table_end_points(&spec).is_some() && g.bool(0.4) { 1 + g.index(2) as u8 } else { 0 };
     Case {
         spec,
         state,
         ig,
         ci,
         cj,
+        snap,
     }
 }
 
@@ -73,11 +93,13 @@ fn kink_temperatures(spec: &ModelSpec) -> Vec<f64> {
                 }
             }
         }
+        // interior points of a table only: a single point is a constant, and beyond the first / last point the
+        // first / last segment is continued (no kink at the end points)
         if let Some(data) = m["permittivity_record"]["ExperimentalData"]["data"].as_array() {
-            for d in data {
-                if let Some(t) = d[0].as_f64() {
-                    out.push(t);
-                }
+            let mut ts: Vec<f64> = data.iter().filter_map(|d| d[0].as_f64()).collect();
+            ts.sort_by(|a, b| a.partial_cmp(b).unwrap());
+            if ts.len() >= 3 {
+                out.extend_from_slice(&ts[1..ts.len() - 1]);
             }
         }
     }
@@ -263,6 +285,11 @@ pub fn check(case: &Case, obs: &mut Obs) {
             return;
         }
     };
+    let mut inputs = inputs;
+    if let (true, Some((lo, hi))) = (case.snap > 0, table_end_points(spec)) {
+        inputs.0 = Temperature::from_reduced(if case.snap == 1 { lo } else { hi });
+        obs.class("temperature exactly at an end point of the permittivity table");
+    }
     let s = match build_state(&model, &inputs) {
         Ok(s) => s,
         Err(e) => {
